@@ -57,7 +57,8 @@ def ret(code=0, msg='', pay=None, ek='', det=0):
 # ------------------------------------------------------------------ C01 -----
 
 def c01(tier, rng):
-    out = []
+    from . import gen2
+    out = gen2.refused_write_then_calls('C01')
     # (a) k callers, every handler completion order, responses delivered one by one or all at once
     kmax = 3 if tier == 'quick' else 4
     for k in range(1, kmax + 1):
@@ -201,7 +202,8 @@ def stream_scn(fam, tag, kind, cprog, hprog, n, m, manual=False, ser=True, c=1, 
 
 
 def c02(tier, rng):
-    out = []
+    from . import gen2
+    out = gen2.late_messages('C02')
     kinds = ['bidi', 'cs', 'ss']
     cprogs = ['sendall', 'pingpong', 'concurrent', 'earlyclose']
     hprogs = ['echo', 'burst', 'afterEOF']
